@@ -312,6 +312,8 @@ func (in *instrumenter) rewriteFile(p *pkgInfo, f *ast.File, name string, write 
 	}
 	usesTime, usesRand := false, false
 	timeStill, randStill := false, false
+	runtimeName := importName(f, "runtime")
+	usesRuntime, runtimeStill := false, false
 
 	// sync import redirect
 	for _, is := range f.Imports {
@@ -537,8 +539,15 @@ func (in *instrumenter) rewriteFile(p *pkgInfo, f *ast.File, name string, write 
 				}
 			case *ast.SelectorExpr:
 				if id, ok := x.X.(*ast.Ident); ok {
-					if id.Name == "runtime" && (x.Sel.Name == "SetFinalizer" || x.Sel.Name == "AddCleanup") || id.Name == "weak" && (x.Sel.Name == "Make" || x.Sel.Name == "Pointer") || id.Name == "unique" && x.Sel.Name == "Make" {
+					if id.Name == "weak" && (x.Sel.Name == "Make" || x.Sel.Name == "Pointer") || id.Name == "unique" && x.Sel.Name == "Make" {
 						in.res.Seams["gc_lifetime"]++
+					}
+					if isPkgIdent(id, runtimeName) && (x.Sel.Name == "SetFinalizer" || x.Sel.Name == "AddCleanup") {
+						add(off(x.Pos()), int(x.End()-x.Pos()), rt+"."+x.Sel.Name)
+						in.res.Seams["gc_lifetime"]++
+						usesRuntime = true
+					} else if isPkgIdent(id, runtimeName) {
+						runtimeStill = true
 					}
 					if isPkgIdent(id, timeName) {
 						if to, ok := timeFuncs[x.Sel.Name]; ok {
@@ -577,6 +586,9 @@ func (in *instrumenter) rewriteFile(p *pkgInfo, f *ast.File, name string, write 
 	tail := ""
 	if usesTime && !timeStill {
 		tail += fmt.Sprintf("\nvar _ %s.Duration\n", timeName)
+	}
+	if usesRuntime && !runtimeStill {
+		tail += fmt.Sprintf("\nvar _ = %s.GC\n", runtimeName)
 	}
 	if usesRand && !randStill {
 		tail += fmt.Sprintf("\nvar _ = %s.Int\n", randName)
